@@ -321,6 +321,19 @@ def run(ctx):
                 ctx.tick(1, ("single", ver))
                 for c, i, e, o in v:
                     ctx.violation(c, {"kind": "point", "version": ver, "le": [e_mono], "b": [float(bb)]}, e, o)
+        # batch composition: every ordered triple (repetition allowed) over a small event alphabet - energies on a node, between
+        # nodes and at both ends of the axis, angles below / inside / above the table - is one batch; each lane is judged
+        # against the table for ITS OWN energy and angle, so a shortcut decided from the first, the last or the extreme
+        # element of the batch (or from the batch being "mono-energetic" at its ends) shows in the lanes it mis-serves
+        import itertools
+        ev = [(float(lax[0]), float(bax[3])), (float(lax[-1]), float(0.5 * (bax[5] + bax[6]))), (8.0, float(bax[0] / 2)),
+              (float(0.5 * (lax[10] + lax[11])), float(bax[-1])), (9.25, math.radians(60)), (float(lax[7]), float(0.5 * (bax[20] + bax[21]))), (8.0, float(bax[10]))]
+        for combo in itertools.product(range(len(ev)), repeat=3):
+            cl = np.array([ev[k][0] for k in combo]); cb = np.array([ev[k][1] for k in combo])
+            v, _ = judge_points(ver, cl, cb)
+            ctx.tick(3, ("triple", ver, len(set(combo)), combo[0] == combo[2]))
+            for c, i, e, o in v[:3]:
+                ctx.violation(c, {"kind": "point_batch", "version": ver, "le": cl.tolist(), "b": cb.tolist(), "idx": int(i)}, e, o)
         # same-value clamp: beta < beta_min bit-identical to beta_min
         lo_b = np.array([0.0, bax[0] / 2, np.nextafter(bax[0], 0)])
         for lb in lo_b:
